@@ -351,6 +351,16 @@ func (g *Global) runUnitOpts(u *Unit, timeout int, workers chan struct{}, ro run
 
 // finishAxioms evaluates the user axioms that mention spec functions used by this function.
 func (vc *FnVC) finishAxioms() {
+	// interface-to-interface assertions: which dynamic types implement the asserted interface
+	for _, p := range sortedKeys(vc.implPreds) {
+		pos, neg := vc.G.tagsImplementingSplit(vc.implPreds[p])
+		for _, tg := range pos {
+			vc.axiomDefs = append(vc.axiomDefs, "(assert "+sx(p, fmt.Sprint(tg))+")")
+		}
+		for _, tg := range neg {
+			vc.axiomDefs = append(vc.axiomDefs, "(assert (not "+sx(p, fmt.Sprint(tg))+"))")
+		}
+	}
 	done := map[*Axiom]bool{}
 	for iter := 0; iter < 5; iter++ {
 		changed := false
@@ -393,11 +403,37 @@ func (vc *FnVC) finishAxioms() {
 	}
 }
 
+// stripQuantified drops every quantified fact: top-level quantified assertions are removed and quantified
+// sub-terms inside definitions are replaced by true. Used only to look for candidate counterexamples
+// (which are then replayed on the real code), never to discharge an obligation.
 func stripQuantified(script string) string {
 	var out []string
 	for _, l := range strings.Split(script, "\n") {
-		if strings.HasPrefix(l, "(assert (forall") || strings.HasPrefix(l, "(assert (exists") {
+		if strings.HasPrefix(l, "(assert (forall") || strings.HasPrefix(l, "(assert (exists") || strings.HasPrefix(l, "(assert (! (forall") {
 			continue
+		}
+		for _, q := range []string{"(forall ", "(exists "} {
+			for {
+				i := strings.Index(l, q)
+				if i < 0 {
+					break
+				}
+				depth, j := 0, i
+				for ; j < len(l); j++ {
+					if l[j] == '(' {
+						depth++
+					} else if l[j] == ')' {
+						depth--
+						if depth == 0 {
+							break
+						}
+					}
+				}
+				if j >= len(l) {
+					break
+				}
+				l = l[:i] + "true" + l[j+1:]
+			}
 		}
 		out = append(out, l)
 	}
